@@ -338,6 +338,10 @@ def apply_unary(op, x):
         return np.asarray(x).reshape(tuple(defaults["shape"]))
     if name == "getslice":
         index = defaults["index"]
+        if isinstance(x, tuple):
+            if isinstance(index, tuple) and len(index) == 1:
+                index = index[0]
+            return x[index]
         try:
             return np.asarray(x)[index]
         except IndexError:
@@ -387,6 +391,8 @@ def apply_binary(op, a, b):
             return BINARY[name](a, b)
     if name == "getitem":
         offset = defaults.get("offset", 0)
+        if isinstance(a, tuple):
+            return a[as_index(b, len(a))]
         a = np.asarray(a)
         if offset >= a.ndim:
             raise Unsupported("getitem offset beyond rank")
